@@ -179,6 +179,7 @@ class Gen:
         self.state = []   # rows of the last dump (without the trailer)
         self.qlen = 0
         self.life = {}    # id -> number of entries created for it so far
+        self.queue = []   # operations already decided (a restart re-reports the same HTLC several times)
 
     def absorb(self, res, op=None):
         for o in res["outs"]:
@@ -260,6 +261,17 @@ class Gen:
     def next_op(self):
         rng = self.rng
         ids = [1, 2, 3, 4, 5, 6]
+        if self.queue:
+            return self.queue.pop(0)
+        if rng.chance(1, 14):
+            # restart(s) with an up-to-date manager: the monitor of a closed channel re-reports HTLCs the
+            # manager already tracks (insert_from_monitor_on_startup with a session priv that is in the entry)
+            live = [sp for r in self.state if r[1] == 0 for sp in r[13:]]
+            if live:
+                sp = rng.choice(sorted(live))
+                n = rng.range(1, 3)
+                self.queue = [{"k": "startup", "sp": sp} for _ in range(n - 1)]
+                return {"k": "startup", "sp": sp}
         for _ in range(50):
             r = rng.below(100)
             if r < 11:
@@ -394,8 +406,9 @@ class Judge:
         # ground truth about HTLCs, independent of what OutboundPayments believes: an HTLC whose send
         # returned Ok or MonitorUpdateInProgress is committed to a channel and stays in flight until
         # the channel delivers its fulfil or fail (the first claim / fail operation naming it)
-        self.ht = {}        # sp -> {"id", "life", "flight": bool}
+        self.ht = {}        # sp -> {"id", "life", "flight": bool, "amt", "fee"}
         self.lifeno = {}    # id -> number of entries created so far
+        self.total = {}     # id -> the amount the current entry was created for (from the operation, not the dump)
 
     def in_flight(self, pid, but=None):
         return sorted(sp for sp, h in self.ht.items()
@@ -432,7 +445,25 @@ class Judge:
                 self.lifeno[o[1]] = self.lifeno.get(o[1], 0) + 1
         for o in outs:
             if o[0] == 12:
-                self.ht[o[2]] = {"id": o[1], "life": self.lifeno.get(o[1], 0), "flight": o[6] in (0, 2)}
+                self.ht[o[2]] = {"id": o[1], "life": self.lifeno.get(o[1], 0), "flight": o[6] in (0, 2), "amt": o[4], "fee": o[5]}
+        for o in outs:
+            if o[0] == 10:
+                if op["k"] == "send" and op["id"] == o[1]:
+                    # (the route may overpay a little: the payment's total is the route's, not the request's)
+                    self.total.pop(o[1], None)
+                elif op["k"] == "add" and op["id"] == o[1]:
+                    self.total[o[1]] = sum(pp[0] for pp in op["paths"])
+                elif op["k"] == "startup" and op["sp"] in self.ht:
+                    self.total[o[1]] = self.ht[op["sp"]]["amt"]
+                else:
+                    self.total.pop(o[1], None)
+        if op["k"] == "startup" and op["sp"] in self.ht:
+            # the monitor reports the HTLC as outstanding: if the entry took it in (again), it is in flight
+            h = self.ht[op["sp"]]
+            ra, rb0 = self.row(state, h["id"]), self.row(before, h["id"])
+            if ra is not None and op["sp"] in ra[13:] and (rb0 is None or op["sp"] not in rb0[13:]):
+                h["life"] = self.lifeno.get(h["id"], 0)
+                h["flight"] = True
         resolved_now = None
         if op["k"] in ("claim", "fail") and op["sp"] in self.ht and self.ht[op["sp"]]["flight"]:
             resolved_now = op["sp"]
@@ -474,6 +505,14 @@ class Judge:
                             bad("PaymentSent: amount_msat %d is not the payment's total %d" % (o[3], rb[8]))
                         if o[4] != rb[7]:
                             bad("PaymentSent: fee_paid_msat %d is not the pending fee %d" % (o[4], rb[7]))
+                    # ... and against the ground truth kept here per HTLC (not the entry's own accounting)
+                    if pid in self.total and o[3] != self.total[pid]:
+                        bad("PaymentSent: amount_msat %d, but the payment was created for %d msat" % (o[3], self.total[pid]))
+                    true_fee = sum(h["fee"] for h in self.ht.values()
+                                   if h["id"] == pid and h["life"] == self.lifeno.get(pid, 0) and h["flight"])
+                    if o[4] >= 0 and o[4] != true_fee:
+                        bad(("[entry kind %s] " % (rb[1] if rb is not None else "?")) + "PaymentSent: fee_paid_msat %d, but the fees of the parts actually in flight or settled for this payment sum to %d "
+                            "(the sender's balance falls by amount + %d)" % (o[4], true_fee, true_fee))
             elif t == 2:
                 pid = o[1]
                 lf = self.life.get(pid)
